@@ -235,6 +235,7 @@ func storedOn(n *simnode.Node, b *nom.AccountBlock) *nom.AccountBlock {
 }
 
 func runC13(r *simrt.Run) {
+	r.WatchLocks() // a lock of the node that is never released is a violation, not a hang
 	t := r.T
 	mode := nomsim.SporkMode(t.Choose(3))
 	w := nomsim.NewWorld(r, nomsim.MockGenesis(mode))
